@@ -193,6 +193,8 @@ def run(tier, seed):
     chk.outside = ['steady-state initialisation on (C15)', 'Model-level value clause with symbolic values: AddExogenous/AddInitialCondition turn values '
                    'into text (repr/str(float)), which realises them; checked by a concrete enumeration instead (reported separately)',
                    'horizons above 3']
+    from vf import selfcheck
+    selfcheck.run(chk)      # differential validation of the E2 value classes (trusted base) against plain floats
     res = chx.run_file(H, timeout=T)
     chx.absorb(chk, H, res)
     from vf.par import pmap
